@@ -31,12 +31,14 @@ type schedX struct {
 	obs []string
 	v   []rt.Violation
 	// C01 bookkeeping
-	swapOK   map[int]int      // proof index -> successful swaps containing it
-	meltOf   map[int][]int    // proof index -> melt indices that were called with it
-	meltPay  map[int][]payAns // proof index -> backend answers to the payment attempts of the requests that carried it
-	meltErr  map[int]string   // melt index -> error code of the MeltTokens call(s)
-	checks   [][]string       // successive ProofsStateCheck observations (state names) per check thread call
-	checkIdx []int
+	swapOK     map[int]int   // proof index -> successful swaps containing it
+	meltOf     map[int][]int // proof index -> melt indices that were called with it
+	swapRes    []swapRes
+	sharedOuts []world.Out      // if set, every swap thread asks for THESE outputs (same B_ in concurrent requests)
+	meltPay    map[int][]payAns // proof index -> backend answers to the payment attempts of the requests that carried it
+	meltErr    map[int]string   // melt index -> error code of the MeltTokens call(s)
+	checks     [][]string       // successive ProofsStateCheck observations (state names) per check thread call
+	checkIdx   []int
 	// C03 bookkeeping
 	mintOK      map[int]int
 	mintSum     map[int]uint64
@@ -47,6 +49,12 @@ type schedX struct {
 	kindsAll    []string
 	freeRun     bool
 	mu          sync.Mutex
+}
+
+type swapRes struct {
+	name string
+	ins  []int
+	ok   bool
 }
 
 type payAns struct {
@@ -96,11 +104,15 @@ func (x *schedX) thSwap(name string, ins []int, mut string) {
 		sum += p.Amount
 	}
 	outs := w.U.Outputs(w.M.ActiveID(), world.Split(sum-fee.Uint64())...)
+	if x.sharedOuts != nil {
+		outs = x.sharedOuts
+	}
 	x.s.Go(name, func() {
 		_, err := w.M.M.Swap(proofs, world.Msgs(outs))
 		x.mu.Lock()
 		defer x.mu.Unlock()
 		x.note("%s swap%v -> %s", name, ins, errc(err))
+		x.swapRes = append(x.swapRes, swapRes{name, ins, err == nil})
 		if err == nil {
 			for _, n := range ins {
 				x.swapOK[n]++
@@ -660,6 +672,38 @@ func init() {
 		x.thCheck("B", []int{0}, 1)
 		x.thSwap("C", []int{0}, "")
 	}, oracle: oracleC05(0, []int{0}, lnmodel.Succeeded)})
+
+	// ---------- C06: a request answered with an error has changed nothing, also when requests overlap ----------
+	addScn(&schedScn{name: "R1-swap-swap-same-outputs", prop: "C06", setup: func(x *schedX) {
+		// two swaps with different inputs ask for the SAME outputs: one of them is refused ("already signed" or a storage
+		// conflict); its input must be as unspent as before
+		must(x.w, "fund|8,8")
+		x.sharedOuts = x.w.U.Outputs(x.w.M.ActiveID(), 8)
+		x.thSwap("A", []int{0}, "")
+		x.thSwap("B", []int{1}, "")
+	}, oracle: func(x *schedX) {
+		w := x.w
+		okN := 0
+		for _, r := range x.swapRes {
+			st, err := w.M.M.ProofsStateCheck([]string{w.Proofs[r.ins[0]].Y})
+			final := "?"
+			if err == nil && len(st) == 1 {
+				final = st[0].State.String()
+			}
+			x.note("final %s input p%d ok=%v state=%s", r.name, r.ins[0], r.ok, final)
+			if r.ok {
+				okN++
+				if final != "SPENT" {
+					x.viol("C06,C01", x.scn+"/accepted-swap-input-"+final, "swap %s was accepted but its input ends %s: %s", r.name, final, strings.Join(x.obs, "; "))
+				}
+			} else if final != "UNSPENT" {
+				x.viol("C06", x.scn+"/refused-swap-changed-its-input/"+final, "swap %s was answered with an error but its input ends %s (the same input cannot be used in a corrected request): %s", r.name, final, strings.Join(x.obs, "; "))
+			}
+		}
+		if okN > 1 {
+			x.viol("C06,C15", x.scn+"/same-output-signed-twice", "both swaps asking for the same outputs were accepted: %s", strings.Join(x.obs, "; "))
+		}
+	}})
 
 	// ---------- C03 ----------
 	paid := func(x *schedX, locked bool) {
